@@ -5,7 +5,8 @@ cd "$(dirname "$0")/.."
 export PATH=/opt/veriftools/go1.26.8/bin:$PATH GOTOOLCHAIN=local GOPROXY=off GOSUMDB=off GOWORK=off GOFLAGS=-mod=mod
 mkdir -p build .cache/gocache evidence
 export GOCACHE="$PWD/.cache/gocache"
-(cd harness && go build -o ../build/bandparse ./cmd/bandparse)
+(cd harness && go build -o ../build/bandparse ./cmd/bandparse && go build -o ../build/gentables ./cmd/gentables)
+(cd harness/wirebuild && go build -o ../../build/wire github.com/google/wire/cmd/wire)
 python3 tools/gen_tables.py
 (cd coq && coq_makefile -f _CoqProject -o Makefile >/dev/null && timeout 3000 make -j16 >../build/coq_build.log 2>&1) || { tail -30 build/coq_build.log; exit 1; }
 if grep -rnE '\b(Admitted|admit|Axiom|Parameter|Conjecture)\b' coq --include=*.v | grep -v '^\s*(\*' ; then echo "forbidden construct"; exit 1; fi
